@@ -73,7 +73,10 @@ CLAIMS = {
             "invariant proof in Coq + scenario correspondence and fs/fd ledger (server driver)"),
     "C10": ("Theorems over Timed (UnixCmsg::recv's three modes with the O_NONBLOCK flag explicit): the flag is cleared again after ANY sequence of calls with any results, outcome table of "
             "try_recv, it never blocks, 'empty' from a timed receive only after poll reported a full timeout of floor(d / 1 ms), early return on arrival or hang-up; timed driver with "
-            "sequences of the three calls against senders acting before and during the call: outcomes, elapsed time, F_SETFL pairing and poll arguments compared with the model. "
+            "sequences of the three calls against senders acting before and during the call: outcomes, elapsed time, F_SETFL pairing and poll arguments compared with the model; "
+            "the retry loop over messages a crashed sender left unfinished (recv_all: same mode, full timeout again), waits cut short by a signal (run_sig: an I/O error, never 'empty'), "
+            "and the GENERATED error conversions (translator: try_recv_class / recv_class; 'empty' for EAGAIN only, 'disconnected' for a closed channel only) are part of the model; "
+            "crash driver observers timeout_idle / timeout_live replayed on it. "
             "Partial: elapsed wall-clock time is runtime behaviour, measured by the driver, not exhibited by the model",
             "Coq proofs over the receive-mode state machine + trace correspondence of flag/poll calls (timed driver)"),
     "C17": ("Theorems over the Router LTS (after the fix): Ack implies stopped, stopped is final (no call ever again, routes empty, only DropArgs of late routes possible), every callback ever "
